@@ -15,8 +15,8 @@ def c09(tier):
         pol = dict(max_array=6, max_nested_array=4, max_map=1, max_text=1, max_depth=5,
                    max_total_entries=1, max_total_items=9)
     else:
-        pol = dict(max_array=7, max_nested_array=4, max_map=2, max_text=2, max_depth=7,
-                   max_total_entries=2, max_total_items=14)
+        pol = dict(max_array=7, max_nested_array=4, max_map=1, max_text=2, max_depth=6,
+                   max_total_entries=1, max_total_items=12)
     return [("jobs_decode", "decode_job", dict(prop="C09", tname=t, policy=pol)) for t in STRUCTS]
 
 
@@ -32,9 +32,9 @@ def c08(tier):
         car = dict(max_array=3, max_nested_array=3, max_map=1, max_text=2, max_depth=6, max_total_entries=1,
                    max_total_items=6)
     else:
-        hdr = dict(max_array=3, max_map=3, max_text=3, max_depth=4, max_total_entries=3, max_total_items=8)
-        car = dict(max_array=3, max_nested_array=3, max_map=2, max_text=2, max_depth=5, max_total_entries=2,
-                   max_total_items=9)
+        hdr = dict(max_array=3, max_map=3, max_text=3, max_depth=5, max_total_entries=3, max_total_items=4)
+        car = dict(max_array=4, max_nested_array=4, max_map=2, max_text=2, max_depth=6, max_total_entries=2,
+                   max_total_items=8)
     return [_dj("C08", "Header", hdr), _dj("C08", "CoseEncrypt0", car, tag=":carrier")]
 
 
@@ -116,7 +116,7 @@ def _struct_pol(tier, top):
     if tier == "quick":
         return dict(max_array=top, max_nested_array=3, max_map=1, max_text=1, max_depth=6, max_total_entries=1,
                     max_total_items=top + 4)
-    return dict(max_array=top, max_nested_array=4, max_map=2, max_text=1, max_depth=7, max_total_entries=2,
+    return dict(max_array=top + 1, max_nested_array=4, max_map=1, max_text=2, max_depth=7, max_total_entries=1,
                 max_total_items=top + 8)
 
 
@@ -145,9 +145,15 @@ def c05(tier):
 
 
 def c06(tier):
-    steps = 3 if tier == "quick" else 4
-    return [("jobs_struct", "history_job", dict(prop="C06", tname=t, steps=steps, palette=(0, 3) if tier == "quick" else (0, 1, 2, 3)))
-            for t in ("CoseSign1", "CoseSign", "CoseMac0", "CoseMac", "CoseEncrypt0", "CoseEncrypt", "CoseRecipient")]
+    if tier == "quick":
+        return [("jobs_struct", "history_job", dict(prop="C06", tname=t, steps=3, palette=(0, 3)))
+                for t in ("CoseSign1", "CoseSign", "CoseMac0", "CoseMac", "CoseEncrypt0", "CoseEncrypt", "CoseRecipient")]
+    # thorough: the full header palette at three calls, and four calls for the single-layer builders
+    jobs = [("jobs_struct", "history_job", dict(prop="C06", tname=t, steps=3, palette=(0, 1, 2, 3)))
+            for t in ("CoseSign1", "CoseSign", "CoseMac", "CoseEncrypt", "CoseRecipient")]
+    jobs += [("jobs_struct", "history_job", dict(prop="C06", tname=t, steps=4, palette=(0, 3)))
+             for t in ("CoseSign1", "CoseMac0", "CoseEncrypt0")]
+    return jobs
 
 
 ALL_TYPES = STRUCTS + ["Header", "CoseKey", "CoseKeySet", "ClaimsSet", "PartyInfo", "SuppPubInfo", "CoseKdfContext"]
@@ -166,8 +172,11 @@ def _rt_pol(tier, t, entries=None):
             e = 0           # its only map is the protected header of SuppPubInfo (covered by that type)
         return dict(max_array=top, max_nested_array=3, max_map=e, max_text=1, max_depth=6, max_total_entries=e,
                     max_total_items={"CoseKdfContext": 13, "CoseKeySet": 3, "Header": 4}.get(t, top + 4))
-    return dict(max_array=top, max_nested_array=4, max_map=3, max_text=2, max_depth=5, max_total_entries=3,
-                max_total_items={"CoseKdfContext": 14}.get(t, top + 8))
+    e = entries if entries is not None else (3 if t in MAPS else 1)
+    if t == "CoseKdfContext":
+        e = 1
+    return dict(max_array=top + 1, max_nested_array=4, max_map=e, max_text=2, max_depth=7, max_total_entries=e,
+                max_total_items={"CoseKdfContext": 15, "CoseKeySet": 4, "Header": 6}.get(t, top + 8))
 
 
 def _rj(prop, t, tier, built=False):
@@ -254,8 +263,10 @@ def c01(tier):
             if t in ("Header", "ProtectedHeader"):
                 p.update(max_text=2)         # two bytes: one multi-byte character reaches the text rules
         else:
-            p = dict(max_array=top + 2, max_nested_array=4, max_map=2, max_text=2, max_depth=7, max_total_entries=2,
+            p = dict(max_array=top + 2, max_nested_array=4, max_map=1, max_text=2, max_depth=7, max_total_entries=1,
                      max_total_items={"CoseKdfContext": 15}.get(t, top + 8))
+            if t == "CoseKdfContext":
+                p.update(max_map=0, max_total_entries=0)
         jobs.append(("jobs_misc", "api_job", dict(prop="C01", tname=t, policy=p)))
         if tier != "quick" and t not in ("ProtectedHeader", "Label"):
             jobs.append(("jobs_encode", "roundtrip_job", dict(prop="C01", tname=t, policy=p)))
